@@ -17,7 +17,11 @@ use vh::gen::{self, ParamSpec};
 use vh::rng::{mix, Rng};
 use vh::solve::{self, Cfg, Outcome, Prepared};
 
-fn small_game(rng: &mut Rng, case: u64, only: &str, prop: &str) -> (String, vh::tree::HNode) {
+/// Small games for the interpreter. The frontier search of the parallel solvers hands only the
+/// still unexpanded nodes of the level on which the task target (3 x threads) is reached to the
+/// pool, so every shape here is sized against the thread count it is run with (returned), and
+/// random games are kept only if the modelled frontier has at least two tasks.
+fn small_game(rng: &mut Rng, case: u64, only: &str, prop: &str, methods: &[SolveMethod]) -> (String, vh::tree::HNode, Option<usize>) {
     let only_wmf = only == "wmf";
     // which special shapes make sense depends on the methods of the property
     let fan_slot = match prop {
@@ -26,26 +30,28 @@ fn small_game(rng: &mut Rng, case: u64, only: &str, prop: &str) -> (String, vh::
         _ => false,
     };
     if (fan_slot && only.is_empty()) || only == "fan" {
-        // every frontier task meets at one shared chance infoset and one opponent infoset; k >= 9 so
-        // that with three threads (task target 9) the k chance nodes themselves are the tasks
-        let k = rng.range(9, 11);
-        return (format!("shared_chance_fan(k={})", k), gen::shared_chance_fan(rng, k));
+        // every frontier task draws at one shared chance infoset and one opponent infoset below it
+        let t = *rng.pick(&[2usize, 2, 3]);
+        let k = 3 * t - 1;
+        return (format!("shared_chance_fan_below(k={})", k), gen::shared_chance_fan_below(rng, k, true), Some(t));
     }
     if case % 4 == 2 || only_wmf {
         // lock-ordering shape: each player's single infoset lies above the other's on some paths
-        // and below it on others; enough chance outcomes for the subtrees to be separate tasks
-        // at least six outcomes: with two threads (task target 6) the subtrees themselves are the tasks
-        let (m, n) = (rng.range(6, 9), rng.range(2, 3));
-        return (format!("who_moves_first(outcomes={},actions={})", m, n), gen::who_moves_first(rng, m, n));
+        // and below it on others. m < 3 x threads outcomes, so that the frontier search goes one
+        // level further and leaves most of the m subtrees as tasks
+        let t = *rng.pick(&[2usize, 3]);
+        let m = 3 * t - 1;
+        return (format!("who_moves_first(outcomes={},actions=2)", m), gen::who_moves_first(rng, m, 2), Some(t));
     }
     if case % 4 == 3 {
         // distinct nodes of one infoset with identical continuations
         let c = rng.range(2, 4);
-        return (format!("hidden_irrelevant_move(subgames={})", c), gen::hidden_irrelevant_move(rng, c));
+        return (format!("hidden_irrelevant_move(subgames={})", c), gen::hidden_irrelevant_move(rng, c), None);
     }
+    let modes: Vec<vh::tree::Frontier> = methods.iter().flat_map(|m| solve::frontier_modes(*m).iter().copied()).collect();
     if case % 4 == 1 {
         // contention shape: every move hidden, so one infoset sits below several frontier nodes
-        for _ in 0..50 {
+        for _ in 0..200 {
             let mut par = gen::GenParams::random(rng, 0);
             par.hide_rate = 1.0;
             par.tick_rate = 0.0;
@@ -57,19 +63,19 @@ fn small_game(rng: &mut Rng, case: u64, only: &str, prop: &str) -> (String, vh::
             par.node_budget = rng.range(12, 36);
             let t = gen::random_tree(rng, &par);
             let n = t.count_nodes();
-            if (10..=40).contains(&n) {
-                return (format!("g1-contention(depth<={},budget={})", par.max_depth, par.node_budget), t);
+            if (10..=40).contains(&n) && t.best_threads(&modes, &[2, 3, 4]).1 >= 2 {
+                return (format!("g1-contention(depth<={},budget={})", par.max_depth, par.node_budget), t, None);
             }
         }
     }
-    for _ in 0..200 {
+    for _ in 0..400 {
         let (d, t) = gen::any_game(rng, 0);
         let n = t.count_nodes();
-        if (10..=36).contains(&n) && vh::tree::Flat::new(&t).num_decision_infosets() >= 2 {
-            return (d, t);
+        if (10..=36).contains(&n) && vh::tree::Flat::new(&t).num_decision_infosets() >= 2 && t.best_threads(&modes, &[2, 3, 4]).1 >= 2 {
+            return (d, t, None);
         }
     }
-    ("matching-pennies".into(), gen::matching_pennies())
+    ("who_moves_first(outcomes=5,actions=2)".into(), gen::who_moves_first(rng, 5, 2), Some(2))
 }
 
 fn main() {
@@ -91,7 +97,7 @@ fn main() {
     let (mut held, mut inconclusive, mut visits, mut draws) = (0u64, 0u64, 0u64, 0u64);
     for case in 0..cases {
         let mut rng = Rng::for_case(seed, &format!("miri-{}", prop), case);
-        let (desc, tree) = small_game(&mut rng, case, args.get(4).map(|s| s.as_str()).unwrap_or(""), &prop);
+        let (desc, tree, sized_for) = small_game(&mut rng, case, args.get(4).map(|s| s.as_str()).unwrap_or(""), &prop, methods);
         let prep = match Prepared::new(&tree) {
             Ok(p) => p,
             Err(e) => {
@@ -101,24 +107,27 @@ fn main() {
             }
         };
         let mut method = *rng.pick(methods);
-        if desc.starts_with("shared_chance_fan") && methods.contains(&SolveMethod::External) {
+        if desc.starts_with("shared_chance_fan") && methods.contains(&SolveMethod::External) && rng.chance(0.7) {
             // the shared chance infoset and the blind opponent infoset are met by every task of an
             // external-sampling pass
             method = SolveMethod::External;
         }
-        if desc.starts_with("who_moves_first") && method == SolveMethod::Sampled && methods.contains(&SolveMethod::Full) {
+        if desc.starts_with("who_moves_first") && methods.contains(&SolveMethod::Full) {
             // a sampled chance root selects one subtree per pass, so both move orders never meet
             method = SolveMethod::Full;
         }
         let params = if rng.chance(0.7) { ParamSpec::random(&mut rng) } else { ParamSpec::random_custom(&mut rng) };
         let iters = *rng.pick(&[1u64, 2, 2, 3]);
-        let threads = if desc.starts_with("shared_chance_fan") {
-            3
-        } else if desc.starts_with("who_moves_first") {
-            2
-        } else {
-            *rng.pick(&[2usize, 2, 3])
-        };
+        if sized_for.is_none() && tree.best_threads(solve::frontier_modes(method), &[2, 3, 4]).1 < 2 {
+            // prefer a method of this property whose frontier has tasks on this game
+            if let Some(m) = methods.iter().copied().max_by_key(|m| tree.best_threads(solve::frontier_modes(*m), &[2, 3, 4]).1) {
+                method = m;
+            }
+        }
+        // the thread count the shape was sized for, else the one with the most modelled frontier tasks
+        let (best_t, modelled_tasks) = tree.best_threads(solve::frontier_modes(method), &[2, 3, 4]);
+        let threads = sized_for.unwrap_or(if modelled_tasks >= 2 { best_t } else { *rng.pick(&[2usize, 2, 3]) });
+        let modelled_tasks = solve::frontier_modes(method).iter().map(|m| tree.frontier_tasks(*m, threads)).max().unwrap_or(0);
         let sseed = rng.next();
         let sampling = move || if method == SolveMethod::Full { Sampling::Production } else { Sampling::Seeded(sseed) };
         let base_cfg = Cfg { method, iters, max_reg: 0.0, threads: 1, params };
@@ -131,7 +140,8 @@ fn main() {
         let base = solve::run(&prep, &base_cfg, Some(Config { flags: solve::ALL_LOGS, sampling: sampling(), jitter_seed: 0 }));
         // jitter on: under Miri every jitter site is a yield, i.e. a point where the interpreter's
         // seeded scheduler may switch threads (also while an infoset lock is held)
-        let multi = solve::run(&prep, &cfg, Some(Config { flags: solve::ALL_LOGS | cfr::verif::JITTER, sampling: sampling(), jitter_seed: rng.next() }));
+        let jitter = if args.iter().any(|a| a == "nojitter") { 0 } else { cfr::verif::JITTER };
+        let multi = solve::run(&prep, &cfg, Some(Config { flags: solve::ALL_LOGS | jitter, sampling: sampling(), jitter_seed: rng.next() }));
         match (base, multi) {
             (_, Outcome::Panic(m)) => {
                 verdict = "violation";
@@ -198,7 +208,7 @@ fn main() {
         }
         println!(
             "{}",
-            json!({"case": case, "verdict": verdict, "threads_that_processed_nodes": threads_seen.len(), "signature": sig, "what": what, "cfg": cfg.describe(), "desc": desc, "nodes": prep.flat.nodes.len(),
+            json!({"case": case, "verdict": verdict, "threads_that_processed_nodes": threads_seen.len(), "modelled_frontier_tasks": modelled_tasks, "signature": sig, "what": what, "cfg": cfg.describe(), "desc": desc, "nodes": prep.flat.nodes.len(),
                    "schedule_hash": format!("{:016x}", sched), "tree_hash": format!("{:016x}", tree.structural_hash()),
                    "game": if verdict == "violation" { tree.to_json() } else { json!(tree.brief(80)) }})
         );
